@@ -266,8 +266,12 @@ impl Property for C12 {
     }
     fn gen(&self, run_seed: u64, _tier: Tier) -> Value {
         let mut rng = Rng::sub(run_seed, "workload");
-        let universe = rng.range(1, 8);
-        let n_ops = *rng.pick(&[5usize, 10, 20, 40, 80]);
+        // 1 history in 2000 is LONG (hundreds to thousands of operations, ids far above the number of
+        // live arguments, dozens of tombstones, up to 24 labels): whatever a store does every N-th
+        // operation or above some size
+        let long = rng.chance(1, 2000);
+        let universe = if long { *rng.pick(&[2usize, 3, 5, 8, 12, 24]) } else { rng.range(1, 8) };
+        let n_ops = if long { *rng.pick(&[300usize, 600, 1200, 2500]) } else { *rng.pick(&[5usize, 10, 20, 40, 80]) };
         let n_ops = rng.range(n_ops / 2 + 1, n_ops);
         let mut init: Vec<L> = vec![];
         for l in 0..universe {
@@ -332,9 +336,7 @@ impl Property for C12 {
             out.push(Case { ops: case.ops[..n / 2].to_vec(), ..case.clone() });
             out.push(Case { ops: case.ops[..n - 1].to_vec(), ..case.clone() });
         }
-        for i in 0..n {
-            let mut ops = case.ops.clone();
-            ops.remove(i);
+        for ops in crate::framework::list_removals(&case.ops) {
             out.push(Case { ops, ..case.clone() });
         }
         for i in 0..case.init.len() {
@@ -350,7 +352,7 @@ impl Property for C12 {
         out.into_iter().map(|c| serde_json::to_value(c).unwrap()).collect()
     }
     fn rule(&self) -> String {
-        "case = initial label list (ArgumentSet::new_with_labels) + 3..80 seeded operations {new_argument, remove_argument, new_attack, remove_attack} over a universe of 1..8 labels (usize or String), swarm weights and invalid-operand rate redrawn per run; after every operation all public observables are compared with the RefStore set model. Non-trivial = at least 2 state-changing operations; distinct = distinct serialised case".into()
+        "case = initial label list (ArgumentSet::new_with_labels) + 3..80 seeded operations (1 history in 2000: 150..2500 operations over 2..24 labels, so that ids, tombstones and per-argument lists grow far beyond the live size) {new_argument, remove_argument, new_attack, remove_attack} over a universe of 1..8 labels (usize or String), swarm weights and invalid-operand rate redrawn per run; after every operation all public observables are compared with the RefStore set model. Non-trivial = at least 2 state-changing operations; distinct = distinct serialised case".into()
     }
     fn assumptions(&self) -> Vec<String> {
         vec![
